@@ -585,6 +585,7 @@ fn process_inner(cfg: &RunCfg, item: &Item, rep: &mut PatReport) {
         "C13" => crate::props2::process_c13(cfg, item, rep),
         "C17" => crate::props2::process_escape(cfg, item, rep),
         "C04" => crate::props2::process_c04(cfg, item, rep),
+        "C12" => crate::props4::process_c12(cfg, item, rep),
         "C08" | "C09" | "C10" | "C11" | "C16" => crate::props3::process_wrappers(cfg, item, rep),
         other => {
             rep.status = std::format!("error:unknown property {}", other);
@@ -701,6 +702,9 @@ pub fn work_list(cfg: &RunCfg) -> WorkList {
         return w;
     }
     if let Some(w) = crate::props3::work_list(cfg) {
+        return w;
+    }
+    if let Some(w) = crate::props4::work_list(cfg) {
         return w;
     }
     let feats = feats_for(&cfg.prop);
